@@ -785,3 +785,690 @@ Proof.
 Qed.
 
 End GuestBytesProofs.
+
+(* ------------------------------------------------------------------------------------------ *)
+(* Part 4: histories.  The flat machine: guest memory is ONE partial function address -> byte;
+   every operation is defined on it directly (longest run by counting byte by byte). *)
+Definition fmem := N -> option N.
+Definition fl_mapped (F : fmem) (x : N) : bool := (x <? W64) && match F x with Some _ => true | None => false end.
+Definition fl_run (F : fmem) (a n : N) : N := runlen (fl_mapped F) a (N.to_nat n).
+Definition fl_put (F : fmem) (a : N) (src : list N) : fmem :=
+  fun x => if in_range a (lenN src) x then nth_error src (N.to_nat (x - a)) else F x.
+Definition fl_gets (F : fmem) (a k : N) : list N :=
+  map (fun j => match F (a + N.of_nat j) with Some b => b | None => 0 end) (seq 0 (N.to_nat k)).
+Definition fobs := (N * N * N * N * list N)%type.         (* k v e1 e2 data, as on the wire *)
+Definition f_ok (d : list N) : fobs := (1, 0, 0, 0, d).
+Definition f_count (k : N) (d : list N) : fobs := if k =? 0 then (2, 1, 0, 0, d) else (1, k, 0, 0, d).
+Definition f_exact (n k : N) (d : list N) : fobs :=
+  if k =? 0 then (2, 1, 0, 0, d) else if k =? n then (1, 0, 0, 0, d) else (2, 3, n, k, d).
+Definition f_stream (F : fmem) (a k : N) (d : list N) : fobs :=
+  if k =? 0 then (if fl_mapped F a then (1, 0, 0, 0, d) else (2, 1, 0, 0, d)) else (1, k, 0, 0, d).
+Definition f_stream_exact (F : fmem) (a cnt k : N) (d : list N) : fobs :=
+  if k =? 0 then (if fl_mapped F a then (if 0 =? cnt then (1, 0, 0, 0, d) else (2, 3, cnt, 0, d)) else (2, 1, 0, 0, d))
+  else if k =? cnt then (1, 0, 0, 0, d) else (2, 3, cnt, k, d).
+(* atomics additionally see the region structure: one region, aligned in it *)
+Definition atomic_okb (L : layout) (a sz : N) : bool :=
+  existsb (fun p => (fst p <=? a) && (a + sz <=? fst p + snd p) && ((a - fst p) mod sz =? 0)) L.
+Definition f_atomic_err (F : fmem) (a : N) : fobs := (2, if fl_mapped F a then 4 else 1, 0, 0, []).
+
+Definition flat_step (L : layout) (op : bop) (F : fmem) : fmem * fobs :=
+  match op with
+  | BWrite buf a =>
+      match buf with [] => (F, f_ok []) | _ :: _ =>
+        let k := fl_run F a (lenN buf) in (fl_put F a (firstn (N.to_nat k) buf), f_count k []) end
+  | BRead buf0 a =>
+      match buf0 with [] => (F, f_ok []) | _ :: _ =>
+        let k := fl_run F a (lenN buf0) in (F, f_count k (fl_gets F a k ++ skipn (N.to_nat k) buf0)) end
+  | BWriteSlice buf a | BWriteObj buf a =>
+      match buf with [] => (F, f_ok []) | _ :: _ =>
+        let k := fl_run F a (lenN buf) in (fl_put F a (firstn (N.to_nat k) buf), f_exact (lenN buf) k []) end
+  | BReadSlice buf0 a =>
+      match buf0 with [] => (F, f_ok []) | _ :: _ =>
+        let k := fl_run F a (lenN buf0) in (F, f_exact (lenN buf0) k (fl_gets F a k ++ skipn (N.to_nat k) buf0)) end
+  | BReadObj sz a =>
+      if sz =? 0 then (F, f_ok []) else
+      let k := fl_run F a sz in (F, f_exact sz k (if k =? sz then fl_gets F a sz else []))
+  | BStore val a =>
+      if atomic_okb L a (lenN val) then (fl_put F a val, f_ok []) else (F, f_atomic_err F a)
+  | BLoad sz a =>
+      if atomic_okb L a sz then (F, f_ok (fl_gets F a sz)) else (F, f_atomic_err F a)
+  | BReadVolFrom src cnt a =>
+      let k := fl_run F a (N.min cnt (lenN src)) in
+      (fl_put F a (firstn (N.to_nat k) src), f_stream F a k (skipn (N.to_nat k) src))
+  | BReadExactVolFrom src cnt a =>
+      let k := fl_run F a (N.min cnt (lenN src)) in
+      (fl_put F a (firstn (N.to_nat k) src), f_stream_exact F a cnt k (skipn (N.to_nat k) src))
+  | BWriteVolTo dst cnt a =>
+      let k := fl_run F a cnt in (F, f_stream F a k (dst ++ fl_gets F a k))
+  | BWriteAllVolTo dst cnt a =>
+      let k := fl_run F a cnt in (F, f_stream_exact F a cnt k (dst ++ fl_gets F a k))
+  end.
+Fixpoint flat_hist (L : layout) (ops : list bop) (F : fmem) {struct ops} : fmem * list fobs :=
+  match ops with
+  | [] => (F, [])
+  | op :: t => let so := flat_step L op F in let r := flat_hist L t (fst so) in (fst r, snd so :: snd r)
+  end.
+Definition strip (o : sobs) : fobs := (s_k o, s_v o, s_e1 o, s_e2 o, s_data o).
+
+(* arguments are machine words *)
+Definition op_wf (op : bop) : Prop :=
+  match op with
+  | BWrite b a | BRead b a | BWriteSlice b a | BReadSlice b a | BWriteObj b a => a < W64 /\ lenN b < W64
+  | BReadObj sz a => a < W64 /\ sz < W64
+  | BStore v a => a < W64 /\ 0 < lenN v /\ lenN v < W64
+  | BLoad sz a => a < W64 /\ 0 < sz /\ sz < W64
+  | BReadVolFrom s c a | BReadExactVolFrom s c a => a < W64 /\ c < W64 /\ lenN s < W64
+  | BWriteVolTo d c a | BWriteAllVolTo d c a => a < W64 /\ c < W64
+  end.
+
+(* counting byte by byte finds the run *)
+Lemma runlen_spec mp : forall cnt a,
+  let k := runlen mp a cnt in
+  k <= N.of_nat cnt /\ (forall x, a <= x < a + k -> mp x = true) /\ (k = N.of_nat cnt \/ mp (a + k) = false).
+Proof.
+  induction cnt as [|c IH]; intros a; cbn [runlen]; cbv zeta.
+  - split; [lia|]. split; [intros; lia|left; reflexivity].
+  - destruct (mp a) eqn:E.
+    + destruct (IH (a + 1)) as (A & B & C). cbv zeta in *. set (k := runlen mp (a + 1) c) in *.
+      split; [lia|]. split.
+      * intros x Hx. destruct (N.eq_dec x a) as [->|Hne]; [exact E|]. apply B. lia.
+      * destruct C as [C|C]; [left; lia|right]. replace (a + (1 + k)) with (a + 1 + k) by lia. exact C.
+    + split; [lia|]. split; [intros; lia|right]. rewrite N.add_0_r. exact E.
+Qed.
+Lemma runlen_ext mp1 mp2 : (forall x, mp1 x = mp2 x) -> forall cnt a, runlen mp1 a cnt = runlen mp2 a cnt.
+Proof. intros H. induction cnt as [|c IH]; intros a; cbn [runlen]; [reflexivity|]. rewrite H, IH. reflexivity. Qed.
+
+Lemma rd_big M x : wf_layout_gen (shape M) -> W64 <= x -> rd M x = None.
+Proof.
+  intros Hwf Hx. unfold rd. pose proof (find_lin_spec (shape M) x) as S. destruct (find_lin (shape M) x) as [i|]; [|reflexivity].
+  destruct S as [Hi Hr]. exfalso.
+  assert (HM : Mapped (shape M) x) by (apply Mapped_nth; eauto). pose proof (Mapped_lt _ _ Hwf HM). lia.
+Qed.
+Lemma fl_mapped_rd M x : wf_layout_gen (shape M) -> (fl_mapped (rd M) x = true <-> x < W64 /\ Mapped (shape M) x).
+Proof.
+  intros Hwf. unfold fl_mapped. rewrite andb_true_iff, N.ltb_lt. split; intros [Hx H]; (split; [exact Hx|]).
+  - apply (rd_Some_iff M x Hwf Hx). destruct (rd M x) as [b|]; [eauto|discriminate].
+  - apply (rd_Some_iff M x Hwf Hx) in H. destruct H as [b ->]. reflexivity.
+Qed.
+Lemma fl_run_is_run M a n : wf_layout_gen (shape M) -> a < W64 -> is_run (shape M) a n (fl_run (rd M) a n).
+Proof.
+  intros Hwf Ha. unfold fl_run. pose proof (runlen_spec (fl_mapped (rd M)) (N.to_nat n) a) as S. cbv zeta in S.
+  set (k := runlen (fl_mapped (rd M)) a (N.to_nat n)) in *. destruct S as (A & B & C). rewrite N2Nat.id in A, C.
+  assert (B' : forall x, a <= x < a + k -> x < W64 /\ Mapped (shape M) x).
+  { intros x Hx. apply fl_mapped_rd; [exact Hwf|apply B; exact Hx]. }
+  split; [exact A|]. split; [intros x Hx; apply B'; exact Hx|].
+  destruct C as [C|C]; [left; exact C|right].
+  assert (Hle : a + k <= W64).
+  { destruct (N.eq_dec k 0) as [->|Hk]; [lia|]. destruct (B' (a + k - 1) ltac:(lia)). lia. }
+  destruct (N.eq_dec (a + k) W64) as [He|Hne]; [right; exact He|left].
+  intros HM. assert (X : fl_mapped (rd M) (a + k) = true) by (apply fl_mapped_rd; [exact Hwf|split; [lia|exact HM]]).
+  congruence.
+Qed.
+Lemma fl_run_eq M a n k : wf_layout_gen (shape M) -> a < W64 -> is_run (shape M) a n k -> fl_run (rd M) a n = k.
+Proof. intros Hwf Ha Hk. apply (is_run_unique (shape M) a n); [exact Hwf|apply fl_run_is_run; assumption|exact Hk]. Qed.
+Lemma is_run_top L a n k : wf_layout_gen L -> a < W64 -> is_run L a n k -> a + k <= W64.
+Proof.
+  intros Hwf Ha (_ & B & _). destruct (N.eq_dec k 0) as [->|Hk]; [lia|].
+  pose proof (Mapped_lt L _ Hwf (B (a + k - 1) ltac:(lia))). lia.
+Qed.
+
+Lemma fl_gets_nth F a k j :
+  nth_error (fl_gets F a k) j =
+  if N.of_nat j <? k then Some (match F (a + N.of_nat j) with Some b => b | None => 0 end) else None.
+Proof.
+  unfold fl_gets. destruct (N.ltb_spec (N.of_nat j) k) as [Hlt|Hge].
+  - rewrite nth_error_map, nth_error_nth' with (d := O) by (rewrite seq_length; lia).
+    rewrite seq_nth by lia. reflexivity.
+  - apply nth_error_None. rewrite map_length, seq_length. lia.
+Qed.
+Lemma fl_gets_length F a k : length (fl_gets F a k) = N.to_nat k.
+Proof. unfold fl_gets. rewrite map_length, seq_length. reflexivity. Qed.
+(* a buffer that holds the k run bytes followed by the untouched rest *)
+Lemma read_buffer_eq M a k (b buf0 : list N) : wf_layout_gen (shape M) -> a < W64 -> k <= lenN buf0 ->
+  (forall x, a <= x < a + k -> Mapped (shape M) x) ->
+  length b = length buf0 ->
+  (forall j, nth_error b j = if N.of_nat j <? k then rd M (a + N.of_nat j) else nth_error buf0 j) ->
+  b = fl_gets (rd M) a k ++ skipn (N.to_nat k) buf0.
+Proof.
+  intros Hwf Ha Hk Hrun Hlen Hb. apply nth_error_ext. intros j. rewrite Hb.
+  destruct (N.ltb_spec (N.of_nat j) k) as [Hlt|Hge].
+  - rewrite nth_error_app1 by (rewrite fl_gets_length; lia). rewrite fl_gets_nth.
+    destruct (N.ltb_spec (N.of_nat j) k); [|lia].
+    assert (HM : Mapped (shape M) (a + N.of_nat j)) by (apply Hrun; lia).
+    apply (rd_Some_iff M _ Hwf (Mapped_lt _ _ Hwf HM)) in HM. destruct HM as [v ->]. reflexivity.
+  - rewrite nth_error_app2 by (rewrite fl_gets_length; lia). rewrite fl_gets_length, nth_error_skipn'. f_equal. lia.
+Qed.
+(* the flat reading after a store of the first k bytes of buf on a run *)
+Lemma rd_put_all M M' a k buf : wf_layout_gen (shape M) -> shape M' = shape M -> a < W64 -> a + k <= W64 -> k <= lenN buf ->
+  (forall x, x < W64 -> rd M' x = if in_range a k x then nth_error buf (N.to_nat (x - a)) else rd M x) ->
+  forall x, rd M' x = fl_put (rd M) a (firstn (N.to_nat k) buf) x.
+Proof.
+  intros Hwf HS Ha Htop Hk H x. unfold fl_put. rewrite lenN_firstn by exact Hk.
+  destruct (N.lt_ge_cases x W64) as [Hx|Hx].
+  - rewrite (H x Hx). destruct (in_range a k x) eqn:R; [|reflexivity]. apply in_range_iff in R.
+    rewrite nth_error_firstn' by lia. reflexivity.
+  - rewrite (rd_big M' x) by (rewrite ?HS; assumption). rewrite (rd_big M x) by assumption.
+    replace (in_range a k x) with false; [reflexivity|]. symmetry. apply in_range_false. lia.
+Qed.
+
+Lemma strip_count k d M : strip (ob_count (count_result k) d M) = f_count k d.
+Proof. unfold count_result, f_count. destruct (k =? 0); reflexivity. Qed.
+Lemma strip_exact n k d M : strip (ob_unit (exact_result n k) d M) = f_exact n k d.
+Proof. unfold exact_result, f_exact. destruct (k =? 0); [reflexivity|]. destruct (k =? n); reflexivity. Qed.
+Lemma fl_mapped_lin M a : wf_layout_gen (shape M) -> a < W64 ->
+  fl_mapped (rd M) a = match find_lin (shape M) a with Some _ => true | None => false end.
+Proof.
+  intros Hwf Ha. destruct (find_lin (shape M) a) as [i|] eqn:F.
+  - apply fl_mapped_rd; [exact Hwf|]. split; [exact Ha|]. apply (lin_Some_iff _ _ _ Hwf Ha) in F. apply Mapped_nth. eauto.
+  - apply (lin_None_iff _ _ Hwf Ha) in F. destruct (fl_mapped (rd M) a) eqn:E; [|reflexivity].
+    apply fl_mapped_rd in E; [|exact Hwf]. tauto.
+Qed.
+Lemma strip_stream M M' a k d : wf_layout_gen (shape M) -> a < W64 ->
+  strip (ob_count (stream_result find_lin (shape M) a k) d M') = f_stream (rd M) a k d.
+Proof.
+  intros Hwf Ha. unfold stream_result, f_stream. destruct (k =? 0); [|reflexivity].
+  rewrite (fl_mapped_lin M a Hwf Ha). destruct (find_lin (shape M) a); reflexivity.
+Qed.
+Lemma strip_stream_exact M M' a cnt k d : wf_layout_gen (shape M) -> a < W64 ->
+  strip (ob_unit (match stream_result find_lin (shape M) a k with
+                  | inr e => inr e
+                  | inl n => if n =? cnt then inl tt else inr (EPartialBuffer cnt n) end) d M')
+  = f_stream_exact (rd M) a cnt k d.
+Proof.
+  intros Hwf Ha. unfold stream_result, f_stream_exact. destruct (k =? 0).
+  - rewrite (fl_mapped_lin M a Hwf Ha). destruct (find_lin (shape M) a); [|reflexivity]. destruct (0 =? cnt); reflexivity.
+  - destruct (k =? cnt); reflexivity.
+Qed.
+Lemma atomic_okb_iff L a sz : atomic_okb L a sz = true <-> atomic_okP L a sz.
+Proof.
+  unfold atomic_okb, atomic_okP. rewrite existsb_exists. split; intros (p & Hp & H); exists p; (split; [exact Hp|]).
+  - rewrite !andb_true_iff, !N.leb_le, N.eqb_eq in H. tauto.
+  - rewrite !andb_true_iff, !N.leb_le, N.eqb_eq. tauto.
+Qed.
+Lemma atomic_okP_range L a sz : wf_layout_gen L -> 0 < sz -> atomic_okP L a sz ->
+  a + sz <= W64 /\ forall x, a <= x < a + sz -> Mapped L x.
+Proof.
+  intros Hwf Hsz (p & Hp & H1 & H2 & _). destruct (proj1 Hwf p Hp) as (P1 & P2 & P3). split; [lia|].
+  intros x Hx. exists p. split; [exact Hp|]. unfold In_reg. lia.
+Qed.
+
+Lemma smem_err e d M : s_mem (ob_err e d M) = to_smem M.
+Proof. destruct e; reflexivity. Qed.
+Lemma smem_count r d M : s_mem (ob_count r d M) = to_smem M.
+Proof. destruct r as [n|e]; [reflexivity|apply smem_err]. Qed.
+Lemma smem_unit r d M : s_mem (ob_unit r d M) = to_smem M.
+Proof. destruct r as [n|e]; [reflexivity|apply smem_err]. Qed.
+#[local] Hint Resolve smem_err smem_count smem_unit : core.
+Local Notation LIN := (find_lin).
+Lemma step_refines m M op : wf_layout_gen (shape M) -> op_wf op ->
+  strip (snd (step_C03 m M op)) = snd (flat_step (shape M) op (rd M)) /\
+  (forall x, rd (fst (step_C03 m M op)) x = fst (flat_step (shape M) op (rd M)) x) /\
+  shape (fst (step_C03 m M op)) = shape M /\
+  s_mem (snd (step_C03 m M op)) = to_smem (fst (step_C03 m M op)).
+Proof.
+  intros Hwf Hop. destruct op as [buf a|buf a|buf a|buf a|buf a|sz a|val a|sz a|src cnt a|src cnt a|dst cnt a|dst cnt a];
+    cbn [op_wf] in Hop; cbn [step_C03 flat_step].
+  - (* write *)
+    destruct Hop as [Ha Hb]. destruct buf as [|b0 bt]; [cbn; auto|]. set (buf := b0 :: bt) in *.
+    destruct (gm_write_lemma LIN wf_layout_gen idwf linspec m M buf a Hwf Hb Ha ltac:(discriminate)) as (M' & k & E & Hrun & HS & HR).
+    rewrite E. cbn [fst snd]. rewrite (fl_run_eq M a (lenN buf) k Hwf Ha Hrun).
+    split; [apply strip_count|]. split; [|split; [exact HS|auto]].
+    apply rd_put_all; try assumption; [exact (is_run_top _ _ _ _ Hwf Ha Hrun)|exact (proj1 Hrun)].
+  - (* read *)
+    destruct Hop as [Ha Hb]. destruct buf as [|b0 bt]; [cbn; auto|]. set (buf := b0 :: bt) in *.
+    destruct (gm_read_lemma LIN wf_layout_gen idwf linspec m M buf a Hwf Hb Ha ltac:(discriminate)) as (b & k & E & Hrun & Hl & Hbs).
+    rewrite E. cbn [fst snd]. rewrite (fl_run_eq M a (lenN buf) k Hwf Ha Hrun).
+    rewrite <- (read_buffer_eq M a k b buf Hwf Ha (proj1 Hrun) (proj1 (proj2 Hrun)) Hl Hbs).
+    split; [apply strip_count|]. auto.
+  - (* write_slice *)
+    destruct Hop as [Ha Hb]. destruct buf as [|b0 bt]; [cbn; auto|]. set (buf := b0 :: bt) in *.
+    destruct (gm_write_slice_lemma LIN wf_layout_gen idwf linspec m M buf a Hwf Hb Ha ltac:(discriminate)) as (M' & k & E & Hrun & HS & HR).
+    rewrite E. cbn [fst snd]. rewrite (fl_run_eq M a (lenN buf) k Hwf Ha Hrun).
+    split; [apply strip_exact|]. split; [|split; [exact HS|auto]].
+    apply rd_put_all; try assumption; [exact (is_run_top _ _ _ _ Hwf Ha Hrun)|exact (proj1 Hrun)].
+  - (* read_slice *)
+    destruct Hop as [Ha Hb]. destruct buf as [|b0 bt]; [cbn; auto|]. set (buf := b0 :: bt) in *.
+    destruct (gm_read_slice_lemma LIN wf_layout_gen idwf linspec m M buf a Hwf Hb Ha ltac:(discriminate)) as (b & k & E & Hrun & Hl & Hbs).
+    rewrite E. cbn [fst snd]. rewrite (fl_run_eq M a (lenN buf) k Hwf Ha Hrun).
+    rewrite <- (read_buffer_eq M a k b buf Hwf Ha (proj1 Hrun) (proj1 (proj2 Hrun)) Hl Hbs).
+    split; [apply strip_exact|]. auto.
+  - (* write_obj *)
+    destruct Hop as [Ha Hb]. destruct buf as [|b0 bt]; [cbn; auto|]. set (buf := b0 :: bt) in *. unfold gm_write_obj.
+    destruct (gm_write_slice_lemma LIN wf_layout_gen idwf linspec m M buf a Hwf Hb Ha ltac:(discriminate)) as (M' & k & E & Hrun & HS & HR).
+    rewrite E. cbn [fst snd]. rewrite (fl_run_eq M a (lenN buf) k Hwf Ha Hrun).
+    split; [apply strip_exact|]. split; [|split; [exact HS|auto]].
+    apply rd_put_all; try assumption; [exact (is_run_top _ _ _ _ Hwf Ha Hrun)|exact (proj1 Hrun)].
+  - (* read_obj *)
+    destruct Hop as [Ha Hs]. destruct (N.eqb_spec sz 0) as [->|Hnz]; [cbn; auto|].
+    set (buf := repeat 0 (N.to_nat sz)).
+    assert (Hbl : lenN buf = sz) by (unfold buf, lenN; rewrite repeat_length; lia).
+    assert (Hbne : buf <> []) by (intros Hc; rewrite Hc in Hbl; unfold lenN in Hbl; cbn in Hbl; lia).
+    unfold gm_read_obj. fold buf.
+    destruct (gm_read_slice_lemma LIN wf_layout_gen idwf linspec m M buf a Hwf ltac:(lia) Ha Hbne) as (b & k & E & Hrun & Hl & Hbs).
+    rewrite E. cbn [bind fst snd]. rewrite Hbl in *. rewrite (fl_run_eq M a sz k Hwf Ha Hrun).
+    pose proof (read_buffer_eq M a k b buf Hwf Ha ltac:(rewrite Hbl; exact (proj1 Hrun)) (proj1 (proj2 Hrun)) Hl Hbs) as Hb.
+    unfold exact_result, f_exact. destruct (N.eqb_spec k 0) as [Hk0|Hk0].
+    { subst k. destruct (N.eqb_spec 0 sz); [lia|]. cbn. auto. }
+    destruct (N.eqb_spec k sz) as [->|Hne]; [|cbn; auto].
+    cbn [fst snd]. split; [|auto]. unfold strip, ob. cbn [s_k s_v s_e1 s_e2 s_data]. f_equal.
+    rewrite Hb. rewrite skipn_all2 by (unfold lenN in Hbl; lia). apply app_nil_r.
+  - (* store *)
+    destruct Hop as (Ha & Hs1 & Hs2).
+    destruct (gm_store_lemma LIN wf_layout_gen idwf linspec M val a Hwf Ha Hs1 Hs2) as (M' & r & E & HS & Hiff & Hok & Herr).
+    rewrite E. cbn [fst snd]. destruct r as [[]|e].
+    + assert (A : atomic_okP (shape M) a (lenN val)) by (apply Hiff; reflexivity).
+      rewrite (proj2 (atomic_okb_iff _ _ _) A). cbn [fst snd]. split; [reflexivity|]. split; [|split; [exact HS|auto]].
+      destruct (atomic_okP_range _ _ _ Hwf Hs1 A) as [Htop _].
+      intros x. unfold fl_put. destruct (N.lt_ge_cases x W64) as [Hx|Hx]; [apply Hok; [reflexivity|exact Hx]|].
+      rewrite (rd_big M' x) by (rewrite ?HS; assumption). rewrite (rd_big M x) by assumption.
+      replace (in_range a (lenN val) x) with false; [reflexivity|]. symmetry. apply in_range_false. lia.
+    + destruct (Herr e eq_refl) as (-> & Hinv & Hcls).
+      assert (A : atomic_okb (shape M) a (lenN val) = false).
+      { destruct (atomic_okb (shape M) a (lenN val)) eqn:X; [|reflexivity]. apply atomic_okb_iff, Hiff in X. discriminate. }
+      rewrite A. cbn [fst snd]. split; [|auto]. unfold f_atomic_err. rewrite (fl_mapped_lin M a Hwf Ha).
+      destruct Hcls as [->| ->].
+      * assert (HM : ~ Mapped (shape M) a) by (apply Hinv; reflexivity). apply (lin_None_iff _ _ Hwf Ha) in HM. rewrite HM. reflexivity.
+      * destruct (find_lin (shape M) a) as [i|] eqn:F; [reflexivity|].
+        apply (lin_None_iff _ _ Hwf Ha) in F. apply Hinv in F. discriminate.
+  - (* load *)
+    destruct Hop as (Ha & Hs1 & Hs2).
+    destruct (gm_load_lemma LIN wf_layout_gen idwf linspec M sz a Hwf Ha Hs1 Hs2) as (r & E & Hiff & Hok & Herr).
+    rewrite E. destruct r as [d|e].
+    + assert (A : atomic_okP (shape M) a sz) by (apply Hiff; eauto).
+      rewrite (proj2 (atomic_okb_iff _ _ _) A). cbn [fst snd]. split; [|auto].
+      destruct (atomic_okP_range _ _ _ Hwf Hs1 A) as [Htop Hmp]. destruct (Hok d eq_refl) as [Hdl Hdn].
+      unfold strip, ob, f_ok. cbn [s_k s_v s_e1 s_e2 s_data]. f_equal.
+      apply nth_error_ext. intros j. rewrite Hdn, fl_gets_nth. destruct (N.ltb_spec (N.of_nat j) sz) as [Hj|Hj]; [|reflexivity].
+      assert (HM : Mapped (shape M) (a + N.of_nat j)) by (apply Hmp; lia).
+      apply (rd_Some_iff M _ Hwf (Mapped_lt _ _ Hwf HM)) in HM. destruct HM as [v ->]. reflexivity.
+    + destruct (Herr e eq_refl) as (Hinv & Hcls).
+      assert (A : atomic_okb (shape M) a sz = false).
+      { destruct (atomic_okb (shape M) a sz) eqn:X; [|reflexivity]. apply atomic_okb_iff, Hiff in X. destruct X; discriminate. }
+      rewrite A. cbn [fst snd]. split; [|auto]. unfold f_atomic_err. rewrite (fl_mapped_lin M a Hwf Ha).
+      destruct Hcls as [->| ->].
+      * assert (HM : ~ Mapped (shape M) a) by (apply Hinv; reflexivity). apply (lin_None_iff _ _ Hwf Ha) in HM. rewrite HM. reflexivity.
+      * destruct (find_lin (shape M) a) as [i|] eqn:F; [reflexivity|].
+        apply (lin_None_iff _ _ Hwf Ha) in F. apply Hinv in F. discriminate.
+  - (* read_volatile_from *)
+    destruct Hop as (Ha & Hc & Hs).
+    destruct (gm_read_volatile_from_lemma LIN wf_layout_gen idwf linspec m M a src cnt Hwf Hc Ha Hs) as (M' & k & E & Hrun & HS & HR).
+    rewrite E. cbn [fst snd]. rewrite (fl_run_eq M a _ k Hwf Ha Hrun).
+    split; [apply strip_stream; assumption|]. split; [|split; [exact HS|auto]].
+    apply rd_put_all; try assumption; [exact (is_run_top _ _ _ _ Hwf Ha Hrun)|]. destruct Hrun as (Hk & _). lia.
+  - (* read_exact_volatile_from *)
+    destruct Hop as (Ha & Hc & Hs). unfold gm_read_exact_volatile_from.
+    destruct (gm_read_volatile_from_lemma LIN wf_layout_gen idwf linspec m M a src cnt Hwf Hc Ha Hs) as (M' & k & E & Hrun & HS & HR).
+    rewrite E. cbn [bind fst snd]. rewrite (fl_run_eq M a _ k Hwf Ha Hrun).
+    split; [apply strip_stream_exact; assumption|]. split; [|split; [exact HS|auto]].
+    apply rd_put_all; try assumption; [exact (is_run_top _ _ _ _ Hwf Ha Hrun)|]. destruct Hrun as (Hk & _). lia.
+  - (* write_volatile_to *)
+    destruct Hop as (Ha & Hc).
+    destruct (gm_write_volatile_to_lemma LIN wf_layout_gen idwf linspec m M a dst cnt Hwf Hc Ha) as (d & k & E & Hrun & Hd & Hdl & Hdn).
+    rewrite E. cbn [fst snd]. rewrite (fl_run_eq M a _ k Hwf Ha Hrun).
+    assert (Hdd : d = dst ++ fl_gets (rd M) a k).
+    { rewrite Hd at 1. f_equal. apply nth_error_ext. intros j. rewrite nth_error_skipn', fl_gets_nth.
+      destruct (N.ltb_spec (N.of_nat j) k) as [Hj|Hj].
+      - rewrite Hdn by lia. assert (HM : Mapped (shape M) (a + N.of_nat j)) by (apply (proj1 (proj2 Hrun)); lia).
+        apply (rd_Some_iff M _ Hwf (Mapped_lt _ _ Hwf HM)) in HM. destruct HM as [v ->]. reflexivity.
+      - apply nth_error_None. lia. }
+    rewrite <- Hdd. split; [apply strip_stream; assumption|]. auto.
+  - (* write_all_volatile_to *)
+    destruct Hop as (Ha & Hc). unfold gm_write_all_volatile_to.
+    destruct (gm_write_volatile_to_lemma LIN wf_layout_gen idwf linspec m M a dst cnt Hwf Hc Ha) as (d & k & E & Hrun & Hd & Hdl & Hdn).
+    rewrite E. cbn [bind fst snd]. rewrite (fl_run_eq M a _ k Hwf Ha Hrun).
+    assert (Hdd : d = dst ++ fl_gets (rd M) a k).
+    { rewrite Hd at 1. f_equal. apply nth_error_ext. intros j. rewrite nth_error_skipn', fl_gets_nth.
+      destruct (N.ltb_spec (N.of_nat j) k) as [Hj|Hj].
+      - rewrite Hdn by lia. assert (HM : Mapped (shape M) (a + N.of_nat j)) by (apply (proj1 (proj2 Hrun)); lia).
+        apply (rd_Some_iff M _ Hwf (Mapped_lt _ _ Hwf HM)) in HM. destruct HM as [v ->]. reflexivity.
+      - apply nth_error_None. lia. }
+    rewrite <- Hdd. split; [apply strip_stream_exact; assumption|]. auto.
+Qed.
+
+(* the flat machine only looks at the function's values *)
+Lemma flat_step_ext L op F1 F2 : (forall x, F1 x = F2 x) ->
+  snd (flat_step L op F1) = snd (flat_step L op F2) /\
+  forall x, fst (flat_step L op F1) x = fst (flat_step L op F2) x.
+Proof.
+  intros H.
+  assert (Hm : forall x, fl_mapped F1 x = fl_mapped F2 x) by (intros x; unfold fl_mapped; rewrite H; reflexivity).
+  assert (Hr : forall a n, fl_run F1 a n = fl_run F2 a n) by (intros a n; unfold fl_run; apply runlen_ext; exact Hm).
+  assert (Hg : forall a k, fl_gets F1 a k = fl_gets F2 a k).
+  { intros a k. unfold fl_gets. apply map_ext. intros j. rewrite H. reflexivity. }
+  assert (Hp : forall a src x, fl_put F1 a src x = fl_put F2 a src x) by (intros a src x; unfold fl_put; rewrite H; reflexivity).
+  destruct op as [buf a|buf a|buf a|buf a|buf a|sz a|val a|sz a|src cnt a|src cnt a|dst cnt a|dst cnt a]; cbn [flat_step];
+    try (destruct buf as [|b0 bt]; [split; [reflexivity|exact H]|]);
+    try (destruct (sz =? 0); [split; [reflexivity|exact H]|]);
+    try (destruct (atomic_okb L a _));
+    unfold f_stream, f_stream_exact, f_atomic_err; rewrite ?Hr, ?Hg, ?Hm; cbn [fst snd];
+    (split; [reflexivity|]); try exact H; intros x; apply Hp.
+Qed.
+Lemma flat_hist_ext L : forall ops F1 F2, (forall x, F1 x = F2 x) ->
+  snd (flat_hist L ops F1) = snd (flat_hist L ops F2) /\
+  forall x, fst (flat_hist L ops F1) x = fst (flat_hist L ops F2) x.
+Proof.
+  induction ops as [|op t IH]; intros F1 F2 H; cbn [flat_hist]; [split; [reflexivity|exact H]|].
+  destruct (flat_step_ext L op F1 F2 H) as [E1 E2]. destruct (IH _ _ E2) as [E3 E4]. cbn [fst snd].
+  split; [rewrite E1, E3; reflexivity|exact E4].
+Qed.
+
+(* every history of mixed operations: the observations are those of the flat machine started on
+   the flat reading of the initial memory, and the final memory reads as the machine's final state *)
+Lemma history_refines_lemma m : forall ops M, wf_layout_gen (shape M) -> Forall op_wf ops ->
+  map strip (snd (hist_C03 m M ops)) = snd (flat_hist (shape M) ops (rd M)) /\
+  (forall x, rd (fst (hist_C03 m M ops)) x = fst (flat_hist (shape M) ops (rd M)) x) /\
+  shape (fst (hist_C03 m M ops)) = shape M.
+Proof.
+  induction ops as [|op t IH]; intros M Hwf Hops; cbn [hist_C03 flat_hist]; [auto|].
+  inversion Hops as [|? ? Hop Ht]; subst.
+  destruct (step_refines m M op Hwf Hop) as (S1 & S2 & S3 & _).
+  set (M1 := fst (step_C03 m M op)) in *.
+  destruct (IH M1 ltac:(rewrite S3; exact Hwf) Ht) as (I1 & I2 & I3).
+  destruct (flat_hist_ext (shape M) t _ _ S2) as [E1 E2]. rewrite S3 in I1, I2.
+  cbn [fst snd map]. split; [rewrite S1, I1, E1; reflexivity|]. split.
+  - intros x. rewrite I2. apply E2.
+  - rewrite I3. exact S3.
+Qed.
+
+(* ------------------------------------------------------------------------------------------ *)
+(* Part 5: the executable checker ok_C03 (brute force over (start, bytes) lists) *)
+Lemma to_of_smem S : to_smem (of_smem S) = S.
+Proof. unfold to_smem, of_smem. rewrite map_map. rewrite <- (map_id S) at 2. apply map_ext. intros [a b]; reflexivity. Qed.
+Lemma s_inreg_iff r a : s_inreg (rstart r, rbytes r) a = true <-> In_reg (rstart r, rlen r) a.
+Proof.
+  unfold s_inreg, In_reg, rlen, lenN, slen. cbn [fst snd].
+  rewrite andb_true_iff, N.leb_le, N.ltb_lt. tauto.
+Qed.
+Lemma find_idx_shift L a : forall k, find_idx L a (S k) = option_map S (find_idx L a k).
+Proof.
+  induction L as [|p t IH]; intros k; cbn [find_idx]; [reflexivity|].
+  destruct (r_to_region_addr (fst p) (snd p) a); [reflexivity|apply IH].
+Qed.
+Lemma s_get_rd M a : s_get (to_smem M) a = rd M a.
+Proof.
+  unfold rd, find_lin. induction M as [|r t IH]; [reflexivity|].
+  cbn [to_smem map s_get shape find_idx fst snd].
+  destruct (s_inreg (rstart r, rbytes r) a) eqn:E.
+  - apply s_inreg_iff in E. pose proof (r_to_region_addr_in (rstart r, rlen r) a E) as X. cbn [fst snd] in X.
+    rewrite X. reflexivity.
+  - assert (X : r_to_region_addr (rstart r) (rlen r) a = None).
+    { apply (r_to_region_addr_out (rstart r, rlen r)). intros H; apply s_inreg_iff in H; congruence. }
+    rewrite X. rewrite find_idx_shift. fold (to_smem t). fold (shape t). rewrite IH.
+    destruct (find_idx (shape t) a 0); reflexivity.
+Qed.
+Lemma s_mapped_iff M x : s_mapped (to_smem M) x = true <-> x < W64 /\ Mapped (shape M) x.
+Proof.
+  unfold s_mapped, Mapped. rewrite andb_true_iff, N.ltb_lt, existsb_exists. split; intros [Hx (p & Hp & Hr)]; (split; [exact Hx|]).
+  - unfold to_smem in Hp. apply in_map_iff in Hp. destruct Hp as (r & <- & Hr0). exists (rstart r, rlen r).
+    split; [unfold shape; apply (in_map (fun r => (rstart r, rlen r))); exact Hr0|apply s_inreg_iff; exact Hr].
+  - unfold shape in Hp. apply in_map_iff in Hp. destruct Hp as (r & <- & Hr0). exists (rstart r, rbytes r).
+    split; [unfold to_smem; apply (in_map (fun r => (rstart r, rbytes r))); exact Hr0|apply s_inreg_iff; exact Hr].
+Qed.
+Lemma s_mapped_fl M x : wf_layout_gen (shape M) -> s_mapped (to_smem M) x = fl_mapped (rd M) x.
+Proof.
+  intros Hwf. pose proof (s_mapped_iff M x) as A. pose proof (fl_mapped_rd M x Hwf) as B.
+  destruct (s_mapped (to_smem M) x); destruct (fl_mapped (rd M) x); try reflexivity.
+  - symmetry. apply B. apply A. reflexivity.
+  - apply A. apply B. reflexivity.
+Qed.
+Lemma run_fl M a n : wf_layout_gen (shape M) -> run (to_smem M) a n = fl_run (rd M) a n.
+Proof. intros Hwf. unfold run, fl_run. apply runlen_ext. intros x. apply s_mapped_fl. exact Hwf. Qed.
+Lemma s_gets_fl M a k : s_gets (to_smem M) a k = fl_gets (rd M) a k.
+Proof. unfold s_gets, fl_gets. apply map_ext. intros j. rewrite s_get_rd. reflexivity. Qed.
+
+Lemma leqb_refl l : leqb l l = true.
+Proof. induction l as [|x t IH]; cbn [leqb]; [reflexivity|]. rewrite N.eqb_refl. exact IH. Qed.
+Lemma smem_eqb_refl S : smem_eqb S S = true.
+Proof. induction S as [|x t IH]; cbn [smem_eqb]; [reflexivity|]. rewrite N.eqb_refl, leqb_refl. exact IH. Qed.
+
+Lemma put_bytes_length bytes x a src : length (put_bytes bytes x a src) = length bytes.
+Proof. revert x; induction bytes as [|b t IH]; intros x; cbn [put_bytes length]; [reflexivity|]. f_equal. apply IH. Qed.
+Lemma put_bytes_nth bytes a src : forall x o,
+  nth_error (put_bytes bytes x a src) o =
+  match nth_error bytes o with
+  | Some b => Some (if in_range a (lenN src) (x + N.of_nat o) then nth (N.to_nat (x + N.of_nat o - a)) src b else b)
+  | None => None end.
+Proof.
+  induction bytes as [|b t IH]; intros x o; [destruct o; reflexivity|].
+  destruct o as [|o]; cbn [put_bytes nth_error].
+  - rewrite N.add_0_r. reflexivity.
+  - rewrite IH. replace (x + 1 + N.of_nat o) with (x + N.of_nat (S o)) by lia. reflexivity.
+Qed.
+
+(* a memory with the same regions whose flat reading is "src stored at a" is, byte for byte and
+   region by region, what the checker computes *)
+Lemma mem_check M M' a src : wf_layout_gen (shape M) -> shape M' = shape M ->
+  (forall x, rd M' x = fl_put (rd M) a src x) ->
+  to_smem M' = s_put (to_smem M) a src.
+Proof.
+  intros Hwf HS HR.
+  assert (Hlen : length M' = length M) by (rewrite <- (shape_length M'), HS; apply shape_length).
+  assert (Hwf' : wf_layout_gen (shape M')) by (rewrite HS; exact Hwf).
+  apply nth_error_ext. intros i. unfold s_put, to_smem. rewrite !nth_error_map.
+  destruct (nth_error M' i) as [r'|] eqn:E'; destruct (nth_error M i) as [r|] eqn:E; cbn [option_map].
+  2:{ apply nth_error_None in E. assert (i < length M')%nat by (apply nth_error_Some; congruence). lia. }
+  2:{ apply nth_error_None in E'. assert (i < length M)%nat by (apply nth_error_Some; congruence). lia. }
+  2:{ reflexivity. }
+  assert (Hi : (i < length M)%nat) by (apply nth_error_Some; congruence).
+  assert (Hn' : nth i M' dummy = r') by (apply nth_error_nth; exact E').
+  assert (Hn : nth i M dummy = r) by (apply nth_error_nth; exact E).
+  destruct (shape_eq_nth M M' i HS) as [Es El]. rewrite Hn', Hn in Es, El.
+  cbn [fst snd]. f_equal. rewrite Es. f_equal.
+  apply nth_error_ext. intros o. rewrite put_bytes_nth.
+  assert (Hbl : length (rbytes r') = length (rbytes r)) by (unfold rlen, lenN in El; lia).
+  destruct (nth_error (rbytes r) o) as [b|] eqn:Eb.
+  - assert (Ho : (o < length (rbytes r))%nat) by (apply nth_error_Some; congruence).
+    assert (Hin : In_reg (nth i (shape M) dreg) (rstart r + N.of_nat o)).
+    { rewrite nth_shape, Hn. unfold In_reg, rlen, lenN. cbn [fst snd]. lia. }
+    pose proof (rd_in M i _ Hwf Hi Hin) as R1. rewrite Hn in R1.
+    replace (N.to_nat (rstart r + N.of_nat o - rstart r)) with o in R1 by lia.
+    assert (Hin' : In_reg (nth i (shape M') dreg) (rstart r + N.of_nat o)) by (rewrite HS; exact Hin).
+    pose proof (rd_in M' i _ Hwf' ltac:(lia) Hin') as R2. rewrite Hn', Es in R2.
+    replace (N.to_nat (rstart r + N.of_nat o - rstart r)) with o in R2 by lia.
+    rewrite <- R2, HR. unfold fl_put. destruct (in_range a (lenN src) (rstart r + N.of_nat o)) eqn:R.
+    + apply in_range_iff in R. apply nth_error_nth'. unfold lenN in R. lia.
+    + rewrite R1. exact Eb.
+  - apply nth_error_None. apply nth_error_None in Eb. lia.
+Qed.
+Lemma fl_put_nil F a x : fl_put F a [] x = F x.
+Proof. unfold fl_put. replace (in_range a (lenN []) x) with false; [reflexivity|]. symmetry. apply in_range_false. unfold lenN; cbn. lia. Qed.
+
+Lemma res_count_f k d o : strip o = f_count k d -> res_count k o = true.
+Proof.
+  unfold f_count, res_count, strip. destruct (N.eqb_spec k 0); intros E; injection E as E1 E2 E3 E4 E5;
+    rewrite E1, E2, ?N.eqb_refl; reflexivity.
+Qed.
+Lemma res_exact_f n k d o : 0 < n -> strip o = f_exact n k d -> res_exact n k o = true.
+Proof.
+  intros Hn. unfold f_exact, res_exact, strip. destruct (N.eqb_spec k 0) as [Hk|Hk].
+  - subst k. destruct (N.eqb_spec 0 n); [lia|]. intros E; injection E as E1 E2 E3 E4 E5. rewrite E1, E2. reflexivity.
+  - destruct (N.eqb_spec k n); intros E; injection E as E1 E2 E3 E4 E5; rewrite E1, ?E2, ?E3, ?E4, ?N.eqb_refl; reflexivity.
+Qed.
+Lemma res_exact_stream F a cnt k d o : 0 < cnt -> strip o = f_stream_exact F a cnt k d -> res_exact cnt k o = true.
+Proof.
+  intros Hn. unfold f_stream_exact, res_exact, strip. destruct (N.eqb_spec k 0) as [Hk|Hk].
+  - subst k. destruct (N.eqb_spec 0 cnt); [lia|]. destruct (fl_mapped F a);
+      intros E; injection E as E1 E2 E3 E4 E5; rewrite E1, E2, ?E3, ?E4, ?N.eqb_refl; reflexivity.
+  - destruct (N.eqb_spec k cnt); intros E; injection E as E1 E2 E3 E4 E5; rewrite E1, ?E2, ?E3, ?E4, ?N.eqb_refl; reflexivity.
+Qed.
+Lemma res_count_stream F a k d o : (k = 0 -> fl_mapped F a = false) -> strip o = f_stream F a k d -> res_count k o = true.
+Proof.
+  intros Hm. unfold f_stream, res_count, strip. destruct (N.eqb_spec k 0) as [Hk|Hk].
+  - rewrite (Hm Hk). intros E; injection E as E1 E2 E3 E4 E5. rewrite E1, E2. reflexivity.
+  - intros E; injection E as E1 E2 E3 E4 E5. rewrite E1, E2, ?N.eqb_refl. reflexivity.
+Qed.
+Lemma strip_data o x : strip o = x -> s_data o = snd x.
+Proof. intros <-. reflexivity. Qed.
+Lemma mem_part o M M' a src : wf_layout_gen (shape M) -> shape M' = shape M -> s_mem o = to_smem M' ->
+  (forall x, rd M' x = fl_put (rd M) a src x) -> smem_eqb (s_mem o) (s_put (to_smem M) a src) = true.
+Proof. intros Hwf HS Hm HR. rewrite Hm, (mem_check M M' a src Hwf HS HR). apply smem_eqb_refl. Qed.
+Lemma mem_same o M M' : s_mem o = to_smem M' -> M' = M -> smem_eqb (s_mem o) (to_smem M) = true.
+Proof. intros -> ->. apply smem_eqb_refl. Qed.
+(* a run of a non-empty range that is empty starts at an unmapped address *)
+Lemma run0_unmapped M a n : wf_layout_gen (shape M) -> a < W64 -> 0 < n -> fl_run (rd M) a n = 0 -> fl_mapped (rd M) a = false.
+Proof.
+  intros Hwf Ha Hn Hk. pose proof (fl_run_is_run M a n Hwf Ha) as (_ & _ & C). rewrite Hk, N.add_0_r in C.
+  destruct (fl_mapped (rd M) a) eqn:E; [|reflexivity]. apply fl_mapped_rd in E; [|exact Hwf].
+  destruct C as [C|[C|C]]; [lia|tauto|lia].
+Qed.
+Lemma fl_run_le M a n : fl_run (rd M) a n <= n.
+Proof. unfold fl_run. pose proof (runlen_spec (fl_mapped (rd M)) (N.to_nat n) a) as (A & _). lia. Qed.
+Lemma slen_lenN {A} (l : list A) : slen l = lenN l.
+Proof. reflexivity. Qed.
+Lemma lenN_pos {A} (x : A) l : 0 < lenN (x :: l).
+Proof. unfold lenN. cbn [length]. lia. Qed.
+
+Lemma atomic_ok_eq M a sz : a < W64 -> 0 < sz -> atomic_ok (to_smem M) a sz = atomic_okb (shape M) a sz.
+Proof.
+  intros Ha Hsz. unfold atomic_ok, atomic_okb. destruct (N.ltb_spec a W64); [|lia]. cbn [andb].
+  induction M as [|r t IH]; [reflexivity|]. cbn [to_smem shape map existsb fst snd]. fold (to_smem t). fold (shape t).
+  rewrite IH. f_equal. unfold s_inreg, rlen, slen, lenN. cbn [fst snd].
+  destruct (N.leb_spec (rstart r) a); destruct (N.ltb_spec a (rstart r + N.of_nat (length (rbytes r))));
+    destruct (N.leb_spec (a + sz) (rstart r + N.of_nat (length (rbytes r)))); cbn [andb]; try reflexivity; lia.
+Qed.
+
+Lemma ok_step_lemma m M op : wf_layout_gen (shape M) -> op_wf op ->
+  ok_step (to_smem M) op (snd (step_C03 m M op)) = true.
+Proof.
+  intros Hwf Hop. destruct (step_refines m M op Hwf Hop) as (S1 & S2 & S3 & S4).
+  set (o := snd (step_C03 m M op)) in *. set (M' := fst (step_C03 m M op)) in *. clearbody o M'.
+  assert (Hsame : (forall x, rd M' x = rd M x) -> smem_eqb (s_mem o) (to_smem M) = true).
+  { intros HR.
+    assert (Y : to_smem M' = s_put (to_smem M) 0 []) by (apply (mem_check M M' 0 [] Hwf S3); intros x; rewrite fl_put_nil; apply HR).
+    assert (Z : to_smem M = s_put (to_smem M) 0 []) by (apply (mem_check M M 0 [] Hwf eq_refl); intros x; rewrite fl_put_nil; reflexivity).
+    rewrite S4, Y, <- Z. apply smem_eqb_refl. }
+  destruct op as [buf a|buf a|buf a|buf a|buf a|sz a|val a|sz a|src cnt a|src cnt a|dst cnt a|dst cnt a];
+    cbn [op_wf] in Hop; cbn [flat_step] in S1, S2; cbn [ok_step]; rewrite ?slen_lenN, ?run_fl by exact Hwf;
+    unfold takeN, dropN; rewrite ?s_gets_fl.
+  - (* write *) destruct buf as [|b0 bt]; cbn [fst snd] in S1, S2.
+    + rewrite firstn_nil. rewrite (mem_part o M M' a [] Hwf S3 S4) by (intros x; rewrite fl_put_nil; apply S2). reflexivity.
+    + rewrite (mem_part o M M' a _ Hwf S3 S4 S2). destruct (N.eqb_spec (lenN (b0 :: bt)) 0); [reflexivity|].
+      apply (res_count_f _ _ _ S1).
+  - (* read *) destruct buf as [|b0 bt]; cbn [fst snd] in S1, S2.
+    + rewrite (Hsame S2). reflexivity.
+    + rewrite (Hsame S2). destruct (N.eqb_spec (lenN (b0 :: bt)) 0) as [Hz|_]; [reflexivity|].
+      rewrite (res_count_f _ _ _ S1), (strip_data _ _ S1). unfold f_count. destruct (_ =? 0); cbn [snd]; apply leqb_refl.
+  - (* write_slice *) destruct buf as [|b0 bt]; cbn [fst snd] in S1, S2.
+    + rewrite firstn_nil. rewrite (mem_part o M M' a [] Hwf S3 S4) by (intros x; rewrite fl_put_nil; apply S2). reflexivity.
+    + rewrite (mem_part o M M' a _ Hwf S3 S4 S2). destruct (N.eqb_spec (lenN (b0 :: bt)) 0); [reflexivity|].
+      apply (res_exact_f _ _ _ _ (lenN_pos b0 bt) S1).
+  - (* read_slice *) destruct buf as [|b0 bt]; cbn [fst snd] in S1, S2.
+    + rewrite (Hsame S2). reflexivity.
+    + rewrite (Hsame S2). destruct (N.eqb_spec (lenN (b0 :: bt)) 0) as [Hz|_]; [reflexivity|].
+      rewrite (res_exact_f _ _ _ _ (lenN_pos b0 bt) S1), (strip_data _ _ S1). unfold f_exact.
+      destruct (_ =? 0); [cbn [snd]; apply leqb_refl|]. destruct (_ =? _); cbn [snd]; apply leqb_refl.
+  - (* write_obj *) destruct buf as [|b0 bt]; cbn [fst snd] in S1, S2.
+    + rewrite firstn_nil. rewrite (mem_part o M M' a [] Hwf S3 S4) by (intros x; rewrite fl_put_nil; apply S2). reflexivity.
+    + rewrite (mem_part o M M' a _ Hwf S3 S4 S2). destruct (N.eqb_spec (lenN (b0 :: bt)) 0); [reflexivity|].
+      apply (res_exact_f _ _ _ _ (lenN_pos b0 bt) S1).
+  - (* read_obj *) destruct (N.eqb_spec sz 0) as [Hz|Hnz]; cbn [fst snd] in S1, S2.
+    + rewrite (Hsame S2). reflexivity.
+    + rewrite (Hsame S2). rewrite (res_exact_f sz _ _ _ ltac:(lia) S1). cbn [andb].
+      destruct (N.eqb_spec (fl_run (rd M) a sz) sz) as [Hk|Hk]; [|reflexivity].
+      rewrite (strip_data _ _ S1). unfold f_exact. rewrite Hk. destruct (N.eqb_spec sz 0); [lia|].
+      rewrite N.eqb_refl. cbn [snd]. apply leqb_refl.
+  - (* store *) destruct Hop as (Ha & Hs1 & Hs2).
+    pose proof (atomic_ok_eq M a (lenN val) Ha Hs1) as AB.
+    destruct (atomic_okb (shape M) a (lenN val)) eqn:A; cbn [fst snd] in S1, S2.
+    + assert (Hk1 : s_k o = 1) by (unfold strip, f_ok in S1; congruence). rewrite Hk1. change (1 =? 1) with true. cbv iota.
+      apply atomic_okb_iff in A. destruct (atomic_okP_range _ _ _ Hwf Hs1 A) as [Htop Hmp].
+      assert (Hrun : is_run (shape M) a (lenN val) (lenN val)).
+      { split; [lia|]. split; [exact Hmp|left; reflexivity]. }
+      rewrite (fl_run_eq M a _ _ Hwf Ha Hrun), N.eqb_refl. cbn [andb].
+      apply (mem_part o M M' a val Hwf S3 S4 S2).
+    + assert (Hk2 : s_k o = 2) by (unfold strip, f_atomic_err in S1; congruence). rewrite Hk2. change (2 =? 1) with false. change (2 =? 2) with true. cbv iota. cbn [andb].
+      rewrite (Hsame S2), AB. reflexivity.
+  - (* load *) destruct Hop as (Ha & Hs1 & Hs2).
+    pose proof (atomic_ok_eq M a sz Ha Hs1) as AB.
+    destruct (atomic_okb (shape M) a sz) eqn:A; cbn [fst snd] in S1, S2; rewrite (Hsame S2); cbn [andb].
+    + assert (Hk1 : s_k o = 1) by (unfold strip, f_ok in S1; congruence). rewrite Hk1. change (1 =? 1) with true. cbv iota.
+      apply atomic_okb_iff in A. destruct (atomic_okP_range _ _ _ Hwf Hs1 A) as [Htop Hmp].
+      assert (Hrun : is_run (shape M) a sz sz).
+      { split; [lia|]. split; [exact Hmp|left; reflexivity]. }
+      rewrite (fl_run_eq M a _ _ Hwf Ha Hrun), N.eqb_refl. cbn [andb].
+      rewrite (strip_data _ _ S1). cbn [snd f_ok]. apply leqb_refl.
+    + assert (Hk2 : s_k o = 2) by (unfold strip, f_atomic_err in S1; congruence). rewrite Hk2. change (2 =? 1) with false. change (2 =? 2) with true. cbv iota. cbn [andb].
+      rewrite AB. reflexivity.
+  - (* read_volatile_from *) destruct Hop as (Ha & Hc & Hs). cbn [fst snd] in S1, S2.
+    rewrite (mem_part o M M' a _ Hwf S3 S4 S2). rewrite (strip_data _ _ S1).
+    assert (D : snd (f_stream (rd M) a (fl_run (rd M) a (N.min cnt (lenN src)))
+                       (skipn (N.to_nat (fl_run (rd M) a (N.min cnt (lenN src)))) src))
+                = skipn (N.to_nat (fl_run (rd M) a (N.min cnt (lenN src)))) src).
+    { unfold f_stream. destruct (_ =? 0); [destruct (fl_mapped _ _)|]; reflexivity. }
+    rewrite D, leqb_refl. cbn [andb]. destruct (N.eqb_spec (N.min cnt (lenN src)) 0) as [Hz|Hnz]; [reflexivity|].
+    apply (res_count_stream _ _ _ _ _ (fun Hk => run0_unmapped M a (N.min cnt (lenN src)) Hwf Ha ltac:(lia) Hk) S1).
+  - (* read_exact_volatile_from *) destruct Hop as (Ha & Hc & Hs). cbn [fst snd] in S1, S2.
+    rewrite (mem_part o M M' a _ Hwf S3 S4 S2). rewrite (strip_data _ _ S1).
+    assert (D : snd (f_stream_exact (rd M) a cnt (fl_run (rd M) a (N.min cnt (lenN src)))
+                       (skipn (N.to_nat (fl_run (rd M) a (N.min cnt (lenN src)))) src))
+                = skipn (N.to_nat (fl_run (rd M) a (N.min cnt (lenN src)))) src).
+    { unfold f_stream_exact. destruct (_ =? 0); [destruct (fl_mapped _ _); [destruct (0 =? cnt)|]|destruct (_ =? cnt)]; reflexivity. }
+    rewrite D, leqb_refl. cbn [andb]. destruct (N.eqb_spec cnt 0) as [Hz|Hnz]; [reflexivity|].
+    apply (res_exact_stream _ _ cnt _ _ _ ltac:(lia) S1).
+  - (* write_volatile_to *) destruct Hop as (Ha & Hc). cbn [fst snd] in S1, S2.
+    rewrite (Hsame S2). rewrite (strip_data _ _ S1).
+    assert (D : snd (f_stream (rd M) a (fl_run (rd M) a cnt) (dst ++ fl_gets (rd M) a (fl_run (rd M) a cnt)))
+                = dst ++ fl_gets (rd M) a (fl_run (rd M) a cnt)).
+    { unfold f_stream. destruct (_ =? 0); [destruct (fl_mapped _ _)|]; reflexivity. }
+    rewrite D, leqb_refl. cbn [andb]. destruct (N.eqb_spec cnt 0) as [Hz|Hnz]; [reflexivity|].
+    apply (res_count_stream _ _ _ _ _ (fun Hk => run0_unmapped M a cnt Hwf Ha ltac:(lia) Hk) S1).
+  - (* write_all_volatile_to *) destruct Hop as (Ha & Hc). cbn [fst snd] in S1, S2.
+    rewrite (Hsame S2). rewrite (strip_data _ _ S1).
+    assert (D : snd (f_stream_exact (rd M) a cnt (fl_run (rd M) a cnt) (dst ++ fl_gets (rd M) a (fl_run (rd M) a cnt)))
+                = dst ++ fl_gets (rd M) a (fl_run (rd M) a cnt)).
+    { unfold f_stream_exact. destruct (_ =? 0); [destruct (fl_mapped _ _); [destruct (0 =? cnt)|]|destruct (_ =? cnt)]; reflexivity. }
+    rewrite D, leqb_refl. cbn [andb]. destruct (N.eqb_spec cnt 0) as [Hz|Hnz]; [reflexivity|].
+    apply (res_exact_stream _ _ cnt _ _ _ ltac:(lia) S1).
+Qed.
+
+Definition wf_case03 (c : case03) : Prop :=
+  wf_layout_gen (shape (of_smem (c3_mem c))) /\ Forall op_wf (c3_ops c).
+Lemma ok_hist_lemma m : forall ops M, wf_layout_gen (shape M) -> Forall op_wf ops ->
+  ok_hist (to_smem M) ops (snd (hist_C03 m M ops)) = true.
+Proof.
+  induction ops as [|op t IH]; intros M Hwf Hops; cbn [hist_C03 ok_hist snd]; [reflexivity|].
+  inversion Hops as [|? ? Hop Ht]; subst.
+  rewrite (ok_step_lemma m M op Hwf Hop). cbn [andb].
+  destruct (step_refines m M op Hwf Hop) as (_ & _ & S3 & S4). rewrite S4.
+  apply IH; [rewrite S3; exact Hwf|exact Ht].
+Qed.
+Lemma C03_model_ok_lemma : forall c, wf_case03 c -> ok_C03 c (run_C03 c) = true.
+Proof.
+  intros c [Hwf Hops]. unfold ok_C03, run_C03. rewrite <- (to_of_smem (c3_mem c)) at 1.
+  apply ok_hist_lemma; assumption.
+Qed.
+
+(* non-vacuity: a memory with a region ending exactly at 2^64 and a region at 0 (collection not in
+   address order); a 12-byte write at 2^64-4 stores 4 bytes and stops at the top (finding F5 fixed),
+   an 8-byte write at 14 crosses two touching regions *)
+Lemma C03_nonvacuous_lemma :
+  let M := [ {| rstart := W64 - 8; rbytes := [1;2;3;4;5;6;7;8] |};
+             {| rstart := 0; rbytes := repeat 9 16 |}; {| rstart := 16; rbytes := [0;0;0;0] |} ] in
+  wf_layout_gen (shape M) /\
+  (exists M', gm_write find_lin Debug M [21;22;23;24;25;26;27;28;29;30;31;32] (W64 - 4) = Val (M', inl 4) /\
+              rd M' 0 = Some 9 /\ rd M' (W64 - 1) = Some 24) /\
+  (exists M', gm_write find_lin Debug M [41;42;43;44;45;46;47;48] 14 = Val (M', inl 6) /\
+              rd M' 15 = Some 42 /\ rd M' 16 = Some 43 /\ rd M' 19 = Some 46 /\ rd M' 20 = None) /\
+  gm_write_slice find_lin Debug M [1;2;3] 18 = Val (upd_nth M 2 {| rstart := 16; rbytes := [0;0;1;2] |}, inr (EPartialBuffer 3 2)).
+Proof.
+  cbv zeta. split.
+  - split.
+    + intros p [<-|[<-|[<-|[]]]]; cbn [fst snd rstart rlen rbytes lenN length repeat N.of_nat Pos.of_succ_nat Pos.succ]; rewrite W64_val; lia.
+    + intros i j a Hi Hj. cbn [length shape map] in Hi, Hj.
+      destruct i as [|[|[|i]]]; destruct j as [|[|[|j]]]; try lia; cbn [nth shape map rstart rlen rbytes]; unfold In_reg, rlen, lenN;
+        cbn [fst snd rbytes length repeat N.of_nat Pos.of_succ_nat Pos.succ]; rewrite ?W64_val; intros; try reflexivity; lia.
+  - split; [|split].
+    + eexists. vm_compute. repeat split.
+    + eexists. vm_compute. repeat split.
+    + vm_compute. reflexivity.
+Qed.
+
+Lemma checker_reading_lemma : forall M a n, wf_layout_gen (shape M) -> a < W64 ->
+  is_run (shape M) a n (run (to_smem M) a n) /\
+  (forall x, s_get (to_smem M) x = rd M x) /\
+  (forall M' src, shape M' = shape M -> (forall x, rd M' x = fl_put (rd M) a src x) ->
+     to_smem M' = s_put (to_smem M) a src).
+Proof.
+  intros M a n Hwf Ha. split; [rewrite run_fl by exact Hwf; apply fl_run_is_run; assumption|].
+  split; [intros x; apply s_get_rd|]. intros M' src HS HR. apply mem_check; assumption.
+Qed.
